@@ -284,6 +284,21 @@ class Program:
                             fi = FuncInfo(t.id, m, ci, src.node, src.kind)
                             fi.alias_of = src.name
                             ci.methods[t.id] = fi
+                        elif isinstance(st.value, ast.Call) and ast.unparse(st.value.func).split(".")[-1] == "partialmethod" \
+                                and st.value.args and isinstance(st.value.args[0], ast.Name) \
+                                and st.value.args[0].id in ci.methods:
+                            # name = partialmethod(method, *bound, **kwbound): a method that forwards to `method`
+                            tgt = st.value.args[0].id
+                            bound = [ast.unparse(a) for a in st.value.args[1:]]
+                            kwb = [f"{k.arg}={ast.unparse(k.value)}" for k in st.value.keywords if k.arg]
+                            call_args = ", ".join(bound + ["*args"] + kwb + ["**kwargs"])
+                            code = f"def {t.id}(self, *args, **kwargs):\n    return self.{tgt}({call_args})\n"
+                            fnode = ast.parse(code).body[0]
+                            for n_ in ast.walk(fnode):
+                                if hasattr(n_, "lineno"):
+                                    n_.lineno = st.lineno
+                                    n_.end_lineno = getattr(st, "end_lineno", st.lineno)
+                            ci.methods[t.id] = FuncInfo(t.id, m, ci, fnode, "method")
                         else:
                             ci.attrs[t.id] = st.value
                             if t.id == "__slots__":
